@@ -528,6 +528,11 @@ func (e *Env) call(x *ECall) Val {
 			bv = e.m().structLoad(e.now, b.Ty, b.T)
 		}
 		return Val{T: e.m().structValEq(a.Ty, av, bv), Ty: tBool}
+	case "fnof":
+		// fnof(f): the tag of the function a function value designates (compare with fntag("pkg.f"))
+		v := e.eval(x.Args[0])
+		e.g.vc.Declare("closfn", []Sort{SInt}, SInt)
+		return Val{T: App("closfn", v.T), Ty: tInt}
 	case "isclosure":
 		v := e.eval(x.Args[0])
 		k, ok := x.Args[1].(*EStr)
